@@ -30,9 +30,12 @@ theorem amtOK_of_le_median (T : Tun) (s : St ι) (x : ι) (w a : Nat)
   rw [vals_length] at h1
   exact Nat.le_trans h1 (countGE_anti _ h)
 
-def ReplayOK (T : Tun) : St ι → List (Ent ι) → Prop
+/-- every purge amount of a replay satisfies `P` (in the state in which it is used) -/
+def ReplayP (T : Tun) (P : St ι → ι → Nat → Nat → Prop) : St ι → List (Ent ι) → Prop
   | _, [] => True
-  | s, (x, w, a) :: t => AmtOK T s x w a ∧ ReplayOK T (update T s x w a) t
+  | s, (x, w, a) :: t => P s x w a ∧ ReplayP T P (update T s x w a) t
+
+abbrev ReplayOK (T : Tun) : St ι → List (Ent ι) → Prop := ReplayP T (AmtOK T)
 
 theorem epsInv_init (T : Tun) (lgMax lgStart : Nat) : EpsInv T (init T lgMax lgStart : St ι) := by
   simp [EpsInv, init]
@@ -146,22 +149,41 @@ theorem eps_bound (T : Tun) (s : St ι) (h : EpsInv T s) (hden : 0 < T.lfDen)
   rw [h4] at h3
   exact Nat.le_trans h3 (Nat.mul_le_mul_left _ h2)
 
-/-! ### reachability with purge amounts at most the median -/
+/-! ### reachability with constrained purge amounts -/
 
-/-- like `Reach`, but every purge amount must satisfy `AmtOK` (e.g. be at most the median of all counters) and a merged
-    operand must not have a smaller `lgMax` than the target. No restriction on fully purged operands is needed. -/
-inductive ReachMed (T : Tun) : St ι → Prop
-  | new (lgMax lgStart : Nat) (h : lgStart ≤ lgMax) : ReachMed T (init T lgMax lgStart)
-  | upd {s} (x : ι) (w a : Nat) (h : ReachMed T s) (hok : AmtOK T s x w a) : ReachMed T (update T s x w a)
-  | merge {s o} (ents : List (Ent ι)) (hs : ReachMed T s) (ho : ReachMed T o) (hp : (entPairs ents).Perm o.map)
-      (hlg : s.lgMax ≤ o.lgMax) (hok : ReplayOK T s ents) : ReachMed T (merge T s o ents)
-  | roundtrip {s} (h : ReachMed T s) : ReachMed T (roundtrip T s)
+/-- like `Reach`, but every purge amount must satisfy `P s x w a` (in the state `s` in which `update x w` uses it) and,
+    when `sameLg` is set, a merged operand must not have a smaller `lgMax` than the target.
+    No restriction on fully purged operands is needed for the statements proved about it. -/
+inductive ReachP (T : Tun) (sameLg : Bool) (P : St ι → ι → Nat → Nat → Prop) : St ι → Prop
+  | new (lgMax lgStart : Nat) (h : lgStart ≤ lgMax) : ReachP T sameLg P (init T lgMax lgStart)
+  | upd {s} (x : ι) (w a : Nat) (h : ReachP T sameLg P s) (hok : P s x w a) : ReachP T sameLg P (update T s x w a)
+  | merge {s o} (ents : List (Ent ι)) (hs : ReachP T sameLg P s) (ho : ReachP T sameLg P o)
+      (hp : (entPairs ents).Perm o.map) (hlg : sameLg = true → s.lgMax ≤ o.lgMax) (hok : ReplayP T P s ents) :
+      ReachP T sameLg P (merge T s o ents)
+  | roundtrip {s} (h : ReachP T sameLg P s) : ReachP T sameLg P (roundtrip T s)
+
+/-- purge amounts at most the median, operands of merges at least as large as the target -/
+abbrev ReachMed (T : Tun) : St ι → Prop := ReachP T true (AmtOK T)
+
+theorem replayP_mono (T : Tun) {P Q : St ι → ι → Nat → Nat → Prop} (hpq : ∀ s x w a, P s x w a → Q s x w a)
+    (ents : List (Ent ι)) (s : St ι) (h : ReplayP T P s ents) : ReplayP T Q s ents := by
+  induction ents generalizing s with
+  | nil => trivial
+  | cons e t ih => obtain ⟨x, w, a⟩ := e; exact ⟨hpq _ _ _ _ h.1, ih _ h.2⟩
+
+theorem reachP_mono (T : Tun) {b : Bool} {P Q : St ι → ι → Nat → Nat → Prop} (hpq : ∀ s x w a, P s x w a → Q s x w a)
+    {s : St ι} (h : ReachP T b P s) : ReachP T b Q s := by
+  induction h with
+  | new lgMax lgStart hl => exact ReachP.new lgMax lgStart hl
+  | upd x w a _ hok ih => exact ReachP.upd x w a ih (hpq _ _ _ _ hok)
+  | merge ents _ _ hp hlg hok ih1 ih2 => exact ReachP.merge ents ih1 ih2 hp hlg (replayP_mono T hpq ents _ hok)
+  | roundtrip _ ih => exact ReachP.roundtrip ih
 
 theorem reachMed_inv (T : Tun) {s : St ι} (h : ReachMed T s) : EpsInv T s := by
   induction h with
   | new lgMax lgStart _ => exact epsInv_init T lgMax lgStart
   | upd x w a _ hok ih => exact epsInv_update T _ ih x w a hok
-  | merge ents _ _ hp hlg hok ih1 ih2 => exact epsInv_merge T _ _ ih1 ih2 ents hp hlg hok
+  | merge ents _ _ hp hlg hok ih1 ih2 => exact epsInv_merge T _ _ ih1 ih2 ents hp (hlg rfl) hok
   | roundtrip _ ih => exact epsInv_roundtrip T _ ih
 
 end DS.Fi
